@@ -552,6 +552,48 @@ def rule_layer_roundtrip(rep, repo, table):
                     name, a, cfg.get(a.replace("_internal", ""),
                                      cfg.get("activation"))),
                 loc=loc)
+    # ONE quantizer object (alpha unset) handed in for every weight role:
+    # serialisation writes one entry per role, so the rebuilt layer holds
+    # distinct but equal objects - it must apply the same quantizers
+    if len(qparams) >= 2:
+      from .. import prims as _prims
+      pe_s = layer_pe(repo, ci, name)
+      shared_q = pe_s.call(pe_s.lookup_global("quantized_bits", qmod), [],
+                           dict(bits=4, integer=0, keep_negative=True))
+      kw_s = {k_: v_ for k_, v_ in kw.items() if k_ not in qparams and
+              k_ != "activation"}
+      kw_s.update({p_: shared_q for p_ in qparams})
+      scfg = "%s(one quantizer object for %s)" % (name, qparams)
+      try:
+        o_s = pe_s.call(ClassRef(ci), [], dict(kw_s))
+        cfg_s = pe_s.call(pe_s.getattr(o_s, "get_config"), [], {})
+        cfg_s2 = {k: (_prims.call(pe_s, "copy.deepcopy", [v.attrs["obj"]],
+                                  {}, None) if isinstance(v, Mock) and
+                      v.name == "serialized" else v)
+                  for k, v in cfg_s.items()}
+        if ffn is not None:
+          o_s2 = pe_s.call_func(Func(ffn, fowner.module, [], "from_config",
+                                     ClassRef(ci), fowner), [dict(cfg_s2)],
+                                {})
+        else:
+          o_s2 = pe_s.call(ClassRef(ci), [], {
+              k: v for k, v in cfg_s2.items()
+              if k in params or ci.init_params()[2]})
+        if isinstance(o_s2, Obj):
+          for p_ in qparams:
+            try:
+              q1 = pe_s.getattr(o_s, p_ + "_internal")
+              q2 = pe_s.getattr(o_s2, p_ + "_internal")
+            except PyRaise:
+              continue
+            rep.check(_same_function(pe_s, q1, q2), "R5", unit,
+                      "quantizer-changed-by-config-round-trip:" + p_ +
+                      "_internal",
+                      "%s: rebuilt from its own get_config() the layer "
+                      "applies a different quantizer as %s_internal" % (
+                          scfg, p_), loc=loc, instance=scfg)
+      except (PyRaise, Unsupported):
+        pass
     # sparse configurations: each quantizer-bearing option on its own (what
     # one option's serialisation must not make depend on another one)
     if name in ("QActivation", "QAdaptiveActivation"):
